@@ -87,7 +87,7 @@ def ty_of(tnode):
     raise Unsupported("type " + t)
 
 
-ENUM_TYPES = {"PseudoTcpState"}   # typedef enum with non-negative values: clang's underlying type is unsigned int
+ENUM_TYPES = {"PseudoTcpState", "NiceCandidateType", "NiceCandidateTransport"}   # typedef enum with non-negative values: clang's underlying type is unsigned int
 
 
 def conv(src, dst, term):
@@ -478,9 +478,8 @@ class Fn:
             brk = st and st[-1]["kind"] == "BreakStmt"
             st2 = st[:-1] if brk else st
             if brk:
-                if assigned(st2):
-                    av = sorted(set().union(*[assigned(g[1]) for g in groups]))
-                    raise Unsupported("switch with assignments and break (not needed yet)")
+                # `break` = go on with the statements after the switch: the continuation is inlined into the arm, so
+                # assignments made in the arm are ordinary sequential `let`s in front of it (the tail is duplicated per arm)
                 term = self.stmts(st2 + tail, rest)
             else:
                 term = self.stmts(st2)
@@ -949,7 +948,23 @@ FIELD_KERNELS = [
      [("data_length", "gsize")], [], "fifo_get_buffered", "gsize"),
     ("agent/pseudotcp.c", "pseudo_tcp_fifo_get_write_remaining", "b",
      [("buffer_length", "gsize"), ("data_length", "gsize")], [], "fifo_get_write_remaining", "gsize"),
+    # the candidate type-preference switch (it reads candidate->type, candidate->transport and c->turn->type): see FIELD_SUBST
+    ("agent/candidate.c", "nice_candidate_ice_type_preference", "candidate", [],
+     [("cand_type", "NiceCandidateType"), ("cand_transport", "NiceCandidateTransport"), ("reliable", "gboolean"),
+      ("nat_assisted", "gboolean"), ("turn_is_udp", "gboolean")], "ice_type_preference", "guint8"),
 ]
+
+# textual substitutions applied to a FIELD_KERNELS body before it is checked and parsed; each pattern must match the
+# current source exactly `count` times or the extraction fails closed.  They name what the body reads through a second
+# pointer as a parameter (trusted: listed in the evidence of the property that uses the kernel).
+FIELD_SUBST = {
+    "nice_candidate_ice_type_preference": dict(
+        prelude='#include <glib.h>\n#include "agent.h"\n#include "candidate-priv.h"\n',
+        subst=[(r"const\s+NiceCandidateImpl\s*\*\s*c\s*=\s*\(NiceCandidateImpl\s*\*\)\s*candidate\s*;", "", 1),
+               (r"\bc\s*->\s*turn\s*->\s*type\s*==\s*NICE_RELAY_TYPE_TURN_UDP", "turn_is_udp", 1),
+               (r"\bcandidate\s*->\s*type\b", "cand_type", 1),
+               (r"\bcandidate\s*->\s*transport\b", "cand_transport", 2)]),
+}
 
 
 def field_kernel_source(file, fn, ptr, fields, extra, stub, rty):
@@ -960,6 +975,11 @@ def field_kernel_source(file, fn, ptr, fields, extra, stub, rty):
     ft = function_text(txt, fn, file)
     body = ft[ft.index("{"):]
     body = re.sub(r"/\*.*?\*/", "", body, flags=re.S)
+    fs = FIELD_SUBST.get(fn, {})
+    for pat, rep, count in fs.get("subst", []):
+        body, k = re.subn(pat, rep, body)
+        if k != count:
+            raise Unsupported(f"{fn}: pattern {pat!r} matched {k} times, expected {count}")
     used = set(re.findall(r"\b" + ptr + r"\s*->\s*(\w+)", body))
     if not used <= {f for f, _ in fields}:
         raise Unsupported(f"{fn}: reads fields {sorted(used - {f for f, _ in fields})} that are not listed")
@@ -968,7 +988,7 @@ def field_kernel_source(file, fn, ptr, fields, extra, stub, rty):
     body = re.sub(r"\b" + ptr + r"\s*->\s*(\w+)", r"\1", body)
     if ptr in re.findall(r"\w+", body):
         raise Unsupported(f"{fn}: uses {ptr} other than through ->")
-    return "#include <glib.h>\n" + f"{rty} {stub} (" + ", ".join(f"{t} {f}" for f, t in fields + extra) + ")\n" + body + "\n"
+    return fs.get("prelude", "#include <glib.h>\n") + f"{rty} {stub} (" + ", ".join(f"{t} {f}" for f, t in fields + extra) + ")\n" + body + "\n"
 
 
 def define_text(txt, n, file):
